@@ -63,3 +63,215 @@ def project_wlptr(log, oname, o_wl):
                 out.append("snap %d %d %s" % (ids(head), ids(tail), " ".join(nodes)))
     flush()
     return out
+
+
+# ---------------------------------------------------------------------------------------------
+# projection onto Model.PopWait (blocking pool pops), one pool at a time
+# ---------------------------------------------------------------------------------------------
+class PathLog(t3.Log):
+    """t3.Log that remembers where it came from: project_popwait also needs the raw lines (`M`/`R`/`W`/`C` tags)"""
+
+    def __init__(self, path):
+        super().__init__(path)
+        self.path = path
+
+
+def ns(x):
+    return int(round(float(x) * 1e9))
+
+
+def project_popwait(log, pname):
+    """Lines for `driver popwait` describing everything that happens to pool `pname` (named by harness/sc_popwait.c:
+    pool object `PWk`, queue object `PWk.q` with the lock / mutex at offset 0).
+
+    S apiCall/apiRet            -> call / ret
+    A tas|load|clear PWk.q+0    -> tas / loadLock / clear        (polling pools: spinlock word)
+    A load PWk.q+is_empty       -> loadEmpty
+    first atomic store of a critical section (is_empty := 0/1, else is_in_pool := 1/0) -> link / take <unit>;
+        a pop section that ends without any store found the queue empty -> take none
+    K (clock read)              -> clock a v for a blocking pop of this pool, else advance v
+    C (controller moves time)   -> advance
+    B sleep ... next line of that thread -> sleepDone
+    M lock|unlock PWk.q         -> mlock / munlock               (FIFO_WAIT: virtual pthread mutex)
+    R condwait dl=.. / condret  -> condWait a dl / timeout a (emitted when the consumer runs again, or earlier, just
+                                   before a signal that found nobody waiting: vsched had timed it out by then)
+    W cond .. woke=<tid>        -> signal a w | signal a none"""
+    kind = log.objs.get(pname, {}).get("kind", "fifo")
+    fw = kind == "fifo_wait"
+    st = "PWfwait" if fw else "PWpoll"
+    o_empty = log.off(st, "is_empty")
+    o_cond = log.off("PWfwait", "cond")
+    o_inpool = log.off("ABTI_thread", "is_in_pool")
+    qname = pname + ".q"
+    loc_lock, loc_empty, loc_cond = qname, "%s+%d" % (qname, o_empty), "%s+%d" % (qname, o_cond)
+    out = ["init " + ("fwait" if fw else "poll")]
+    with open(log.path, errors="replace") as f:
+        raw = [l.rstrip("\n").split(" ") for l in f]
+
+    ext_actor, cur_unit = {}, {}
+    cur = {}            # actor -> state of its call in progress on this pool
+    asleep = {}         # tid -> True while in nanosleep
+    skip_unlock = {}    # tid -> the next `M unlock` is the one inside pthread_cond_(timed)wait
+    waiting = {}        # actor -> deadline (ns) while asleep on the condition variable
+    clock = [0]
+
+    def actor(tid, unit=None):
+        u = unit if unit is not None else cur_unit.get(tid, "-")
+        if u.startswith("A") and u[1:].isdigit():
+            return int(u[1:])
+        if u == "-":
+            return ext_actor.get(tid)
+        return None
+
+    def advance(v):
+        v = max(v, clock[0])
+        if v > clock[0]:
+            out.append("advance %d" % v)
+            clock[0] = v
+
+    def need(x):
+        """a step that vsched evidently performed requires time >= x: the logged clock values are truncated to whole
+        ns (and deadlines converted through a timespec), so up to 2 ns may be missing; more is left to the model to reject"""
+        if clock[0] < x <= clock[0] + 2:
+            advance(x)
+
+    def timed_out(a):
+        dl = waiting.pop(a, None)
+        if dl is not None:
+            need(dl)
+            out.append("timeout %d" % a)
+
+    def unit_after(i, tid):
+        """unit whose is_in_pool is cleared next by this thread (the pop in progress)"""
+        for w in raw[i + 1: i + 400]:
+            if w[0] == "A" and len(w) >= 8 and w[1] == tid and w[3] == "store":
+                n, o = t3.split_loc(w[4])
+                if n.startswith("U") and o == o_inpool:
+                    return int(n[1:])
+        return None
+
+    for i, w in enumerate(raw):
+        t = w[0]
+        if t in ("A", "E", "K", "S", "F") and len(w) >= 3:
+            tid, unit = w[1], w[2]
+            cur_unit[tid] = unit
+            if t == "S" and len(w) >= 5 and w[3] == "userStart" and unit == "-":
+                ext_actor[tid] = int(w[4][1:])
+        elif t in ("M", "R", "W", "B") and len(w) >= 2:
+            tid, unit = w[1], None
+        elif t == "C" and len(w) >= 2:
+            advance(ns(w[1]))
+            continue
+        else:
+            continue
+        a = actor(tid, unit)
+        c = cur.get(a) if a is not None else None
+        if t == "B":
+            if len(w) >= 3 and w[2] == "sleep" and c is not None:
+                asleep[tid] = True
+            continue
+        if asleep.pop(tid, None) and c is not None:
+            need(c.get("wake", 0))
+            out.append("sleepDone %d" % a)
+        if t == "K":
+            v = ns(w[3])
+            if c is not None and c["op"] in ("popWait", "popTimedwait") and not (fw and c["op"] == "popTimedwait"):
+                vv = max(v, clock[0])
+                out.append("clock %d %d" % (a, vv))
+                clock[0] = vv
+                c["wake"] = vv + 100          # pop_wait: nanosleep(100) follows the read
+            else:
+                advance(v)
+        elif t == "S":
+            txt = w[3:]
+            if len(txt) >= 3 and txt[0] in ("apiCall", "apiRet") and txt[2] == pname and a is not None:
+                op = txt[1]
+                if txt[0] == "apiCall":
+                    cur[a] = {"op": op, "cs": False, "acted": False}
+                    if op == "push":
+                        cur[a]["unit"] = int(txt[3])
+                        out.append("call %d push %s" % (a, txt[3]))
+                    elif op == "pop":
+                        out.append("call %d pop %s" % (a, txt[3]))
+                    elif op == "popWait":
+                        out.append("call %d popWait %s %s" % (a, txt[3], txt[4]))
+                    elif op == "popTimedwait":
+                        out.append("call %d popTimedwait %s" % (a, txt[3]))
+                    else:
+                        out.append("call %d %s" % (a, op))     # rejected as bad-op
+                else:
+                    r = int(txt[3])
+                    out.append("ret %d %s" % (a, "none" if (op == "push" or r < 0) else str(r)))
+                    cur.pop(a, None)
+        elif t == "A" and len(w) >= 8 and c is not None:
+            op, loc, curv, va = w[3], w[4], int(w[5]), int(w[6])
+            name, off = t3.split_loc(loc)
+            pusher = c["op"] == "push"
+            if loc == loc_lock and not fw:
+                if op == "tas":
+                    out.append("tas %d %d" % (a, 1 if curv else 0))
+                    if not curv:
+                        c["cs"], c["acted"] = True, False
+                elif op == "load":
+                    out.append("loadLock %d %d" % (a, 1 if curv else 0))
+                elif op == "clear":
+                    if not pusher and c["cs"] and not c["acted"]:
+                        out.append("take %d none" % a)
+                        if c["op"] == "popTimedwait":
+                            c["wake"] = clock[0] + 100
+                    c["cs"] = False
+                    out.append("clear %d" % a)
+            elif loc == loc_empty:
+                if op == "load":
+                    out.append("loadEmpty %d %d" % (a, 1 if curv else 0))
+                    if curv and c["op"] == "popTimedwait":
+                        c["wake"] = clock[0] + 100     # pop_timedwait: nanosleep(100) follows the failed attempt
+                elif op == "store" and c["cs"] and not c["acted"]:
+                    c["acted"] = True
+                    if pusher:
+                        out.append("link %d" % a)
+                    else:
+                        u = unit_after(i, tid)
+                        out.append("take %d %s" % (a, "none" if u is None else str(u)))
+            elif name.startswith("U") and name[1:].isdigit() and off == o_inpool and op == "store" and c["cs"] and not c["acted"]:
+                c["acted"] = True
+                if pusher:
+                    out.append("link %d" % a)
+                else:
+                    out.append("take %d %s" % (a, name[1:]))
+        elif t == "M" and len(w) >= 4 and w[3] == loc_lock and fw and c is not None:
+            if w[2] == "lock":
+                out.append("mlock %d" % a)
+                c["cs"], c["acted"] = True, False
+            elif w[2] == "unlock":
+                if skip_unlock.pop(tid, None):
+                    c["cs"] = False
+                    continue
+                if c["op"] != "push" and c["cs"] and not c["acted"]:
+                    out.append("take %d none" % a)
+                c["cs"] = False
+                out.append("munlock %d" % a)
+        elif t == "R" and len(w) >= 5 and w[3] == loc_cond and c is not None:
+            if w[2] == "condwait":
+                dl = w[4].split("=", 1)[1]
+                dl = 10 ** 15 if dl == "inf" else ns(dl)
+                out.append("condWait %d %d" % (a, dl))
+                skip_unlock[tid] = True
+                waiting[a] = dl
+            elif w[2] == "condret":
+                if w[4] == "to=1":
+                    timed_out(a)
+                waiting.pop(a, None)
+        elif t == "W" and len(w) >= 6 and w[2] == "cond" and w[3] == loc_cond and c is not None:
+            ids = [x for x in w[5].split("=", 1)[1].split(",") if x]
+            if not ids:
+                # nobody was waiting any more: every consumer we still believe asleep has already been timed out by
+                # vsched (its `condret to=1` line comes when it runs again)
+                for x in sorted(waiting):
+                    timed_out(x)
+                out.append("signal %d none" % a)
+            else:
+                wa = actor(ids[0])
+                waiting.pop(wa, None)
+                out.append("signal %d %s" % (a, "none" if wa is None else str(wa)))
+    return out
